@@ -76,8 +76,8 @@ func init() {
 	propSpecs = []*PropSpec{
 		{
 			ID:          "C01",
-			Rules:       []RuleUse{use("R-DISPATCH", "v5"), use("R-TOKEN", "v5"), use("R-TOKTAB", "v5"), use("R-REPLACE", "v5"), use("R-MOVE", "v5"), use("R-COPYISO", "v5"), use("R-TYPESTATE", "v5"), use("R-SUCCESS", "v5")},
-			Explanation: "Decided for the v5 body: R-DISPATCH (all six RFC 6902 operations reach the handler with that operation's container effects; validator table = RFC 6902 §4; verdict cannot be bypassed), R-TOKEN + R-TOKTAB (every reference token obtained by splitting a path is decoded exactly once, by a decoder whose table and order are RFC 6901's, on every route to a member lookup, insertion or removal), R-REPLACE (replace requires the target to exist), R-MOVE (move = get, remove of the same container/key, destination resolved after the removal, add of that same value), R-COPYISO (copy inserts a fresh deep duplicate, never an alias), R-TYPESTATE (a null root is held as a nil container that every later operation rejects instead of dereferencing). R-SUCCESS (every handler reports success only after performing its operation).",
+			Rules:       []RuleUse{use("R-DISPATCH", "v5"), use("R-TOKEN", "v5"), use("R-TOKTAB", "v5"), use("R-REPLACE", "v5"), use("R-MOVE", "v5"), use("R-COPYISO", "v5"), use("R-TYPESTATE", "v5"), use("R-SUCCESS", "v5"), {Rule: "R-BOUNDS", Bodies: []string{"v5"}, KeyHas: []string{"(*partialArray)", "findObject", "(*partialDoc)"}}, use("R-NEGIDX", "v5")},
+			Explanation: "Decided for the v5 body: R-DISPATCH (all six RFC 6902 operations reach the handler with that operation's container effects; validator table = RFC 6902 §4; verdict cannot be bypassed), R-TOKEN + R-TOKTAB (every reference token obtained by splitting a path is decoded exactly once, by a decoder whose table and order are RFC 6901's, on every route to a member lookup, insertion or removal), R-REPLACE (replace requires the target to exist), R-MOVE (move = get, remove of the same container/key, destination resolved after the removal, add of that same value), R-COPYISO (copy inserts a fresh deep duplicate, never an alias), R-TYPESTATE (a null root is held as a nil container that every later operation rejects instead of dereferencing). R-SUCCESS (every handler reports success only after performing its operation). R-BOUNDS + R-NEGIDX (the index arithmetic of the four array methods stays in range for every parsed index and both SupportNegativeIndices settings; a negative index is honoured only under the option and is an error otherwise).",
 			NotDecided:  "that the resulting values equal the RFC 6902 result (value-level: needs the contents of the lazily parsed byte slices); the null-equivalence clause (add null then test null); index semantics beyond range safety.",
 			Trusted:     commonTrusted, Assumptions: commonAssumptions,
 		},
@@ -90,15 +90,15 @@ func init() {
 		},
 		{
 			ID:          "C03",
-			Rules:       []RuleUse{{Rule: "R-GATE", Bodies: []string{"v5", "codec"}, KeyHas: []string{"CreateMergePatch", "sink "}}, {Rule: "R-NIL", Bodies: []string{"v5"}, KeyHas: []string{"createArrayMergePatch", "createObjectMergePatch"}}, use("R-NUM", "v5", "codec"), {Rule: "R-POOLINIT", Bodies: []string{"codec"}, KeyHas: []string{"useNumber"}}, {Rule: "R-MAPORDER", Bodies: []string{"v5"}, KeyHas: []string{"getDiff", "matchesValue"}}, use("R-CMPSHAPE", "v5")},
-			Explanation: "Decided for the v5 body: R-GATE (malformed input to CreateMergePatch is rejected before the validity-assuming parse), R-NIL over the create*MergePatch functions, R-NUM + R-POOLINIT/useNumber (numbers are decoded as literals, compared only by literal equality and written back unchanged — 'number literals are carried over unchanged'; two different literals can never compare equal through a machine number type), R-MAPORDER (the diff's map ranges have no order-sensitive effect). R-CMPSHAPE (rejection clause and completeness of the walk: mixed array/object roots return the mismatch error; unequal array lengths are rejected; every element pair goes through the object diff, whose error aborts; every successful return of getDiff has passed both the walk over the modified members and the walk over the original that emits removed members as null).",
+			Rules:       []RuleUse{{Rule: "R-GATE", Bodies: []string{"v5", "codec"}, KeyHas: []string{"CreateMergePatch", "sink "}}, {Rule: "R-NIL", Bodies: []string{"v5"}, KeyHas: []string{"createArrayMergePatch", "createObjectMergePatch"}}, use("R-NUM", "v5", "codec"), {Rule: "R-POOLINIT", Bodies: []string{"codec"}, KeyHas: []string{"useNumber"}}, {Rule: "R-MAPORDER", Bodies: []string{"v5"}, KeyHas: []string{"getDiff", "matchesValue"}}, use("R-CMPSHAPE", "v5"), {Rule: "R-BOUNDS", Bodies: []string{"v5"}, KeyHas: []string{"createArrayMergePatch", "matchesArray"}}},
+			Explanation: "Decided for the v5 body: R-GATE (malformed input to CreateMergePatch is rejected before the validity-assuming parse), R-NIL over the create*MergePatch functions, R-NUM + R-POOLINIT/useNumber (numbers are decoded as literals, compared only by literal equality and written back unchanged — 'number literals are carried over unchanged'; two different literals can never compare equal through a machine number type), R-MAPORDER (the diff's map ranges have no order-sensitive effect). R-CMPSHAPE (rejection clause and completeness of the walk: mixed array/object roots return the mismatch error; unequal array lengths are rejected; every element pair goes through the object diff, whose error aborts; every successful return of getDiff has passed both the walk over the modified members and the walk over the original that emits removed members as null). R-BOUNDS over the pairwise array walks.",
 			NotDecided:  "the round-trip law MergePatch(A, P) = B and minimality (value-level); deletion-as-null completeness.",
 			Trusted:     commonTrusted, Assumptions: commonAssumptions,
 		},
 		{
 			ID:          "C04",
-			Rules:       []RuleUse{{Rule: "R-GATE", Bodies: []string{"v5", "codec"}, KeyHas: []string{"validity-assuming parse", "sink "}}, use("R-NIL"), use("R-TYPESTATE"), use("R-RAW"), use("R-STALERAW"), use("R-DISPATCH"), use("R-REPLACE"), use("R-COPYISO"), use("R-SCAN", "codec"), use("R-DRIVER", "codec"), {Rule: "R-KEYS", Bodies: []string{"v5"}, KeyHas: []string{"emitter", "obj != nil", "whole-map"}}},
-			Explanation: "Decided for both library bodies, as a census of potential panic sites: R-GATE (every exported []byte parameter passes json.Valid before any validity-assuming parse, which panics on ill-formed text), R-NIL (every dereference of a node/container/raw message that may be the nil spelling of null is guarded on every path), R-TYPESTATE (which==eDoc implies a non-nil doc; a nil array container is confined to the root slot and scratch nodes and every consumer tests for it), R-RAW (raw is dereferenced only where it cannot be nil), R-STALERAW (raw bytes are re-read as content only while the node is unparsed), R-DISPATCH (handlers dereference only the members the validator requires for their kind), R-REPLACE (set on an array only after a successful get of the same slot, which is what bounds its index), R-COPYISO (copy never inserts an alias of the source, so no operation sequence can make a value contain itself — the encoder would never return on a cyclic document), R-SCAN + R-DRIVER (the json.Valid gate that the panic-freedom of the validity-assuming decoder rests on accepts exactly RFC 8259), R-KEYS (inserts into the member map happen only under an obj != nil fact — a nil map write panics; the trusted emitter writes names and values only through the codec's encoder, so what it emits — and the unvalidated parser later re-reads — is well-formed).",
+			Rules:       []RuleUse{{Rule: "R-GATE", Bodies: []string{"v5", "codec"}, KeyHas: []string{"validity-assuming parse", "sink "}}, use("R-NIL"), use("R-TYPESTATE"), use("R-RAW"), use("R-STALERAW"), use("R-DISPATCH"), use("R-REPLACE"), use("R-COPYISO"), use("R-SCAN", "codec"), use("R-DRIVER", "codec"), {Rule: "R-KEYS", Bodies: []string{"v5"}, KeyHas: []string{"emitter", "obj != nil", "whole-map"}}, use("R-BOUNDS"), use("R-NEGIDX")},
+			Explanation: "Decided for both library bodies, as a census of potential panic sites: R-GATE (every exported []byte parameter passes json.Valid before any validity-assuming parse, which panics on ill-formed text), R-NIL (every dereference of a node/container/raw message that may be the nil spelling of null is guarded on every path), R-TYPESTATE (which==eDoc implies a non-nil doc; a nil array container is confined to the root slot and scratch nodes and every consumer tests for it), R-RAW (raw is dereferenced only where it cannot be nil), R-STALERAW (raw bytes are re-read as content only while the node is unparsed), R-DISPATCH (handlers dereference only the members the validator requires for their kind), R-REPLACE (set on an array only after a successful get of the same slot, which is what bounds its index), R-COPYISO (copy never inserts an alias of the source, so no operation sequence can make a value contain itself — the encoder would never return on a cyclic document), R-SCAN + R-DRIVER (the json.Valid gate that the panic-freedom of the validity-assuming decoder rests on accepts exactly RFC 8259), R-KEYS (inserts into the member map happen only under an obj != nil fact — a nil map write panics; the trusted emitter writes names and values only through the codec's encoder, so what it emits — and the unvalidated parser later re-reads — is well-formed). R-BOUNDS (every index / slice / make of both library bodies is proved in range from dominating linear facts, or is a reviewed exception naming the invariant it relies on — content-dependent first-byte reads, the keys splice, set-after-get), R-NEGIDX.",
 			NotDecided:  "termination and stack exhaustion; panics inside the inherited decoder/encoder and reflect on well-formed input (trusted codec contract); run-time out-of-memory.",
 			Trusted:     commonTrusted, Assumptions: commonAssumptions,
 		},
@@ -167,8 +167,8 @@ func init() {
 		},
 		{
 			ID:          "C14",
-			Rules:       []RuleUse{{Rule: "R-TOKEN", Bodies: []string{"v5"}, KeyHas: []string{"ensurePathExists", "(Patch).add", "findObject"}}, use("R-TOKTAB", "v5"), {Rule: "R-NIL", Bodies: []string{"v5"}, KeyHas: []string{"ensurePathExists"}}, {Rule: "R-TYPESTATE", Bodies: []string{"v5"}, KeyHas: []string{"ensurePathExists"}}, {Rule: "R-RAW", Bodies: []string{"v5"}, KeyHas: []string{"ensurePathExists"}}},
-			Explanation: "Decided for the v5 body: R-TOKEN + R-TOKTAB (the names of the members that ensurePathExists looks up and creates are the reference tokens decoded exactly once with the RFC 6901 table; padding uses generated indices), R-NIL + R-TYPESTATE + R-RAW over ensurePathExists (no nil node, nil array container or nil raw message is dereferenced while walking and creating the path).",
+			Rules:       []RuleUse{{Rule: "R-TOKEN", Bodies: []string{"v5"}, KeyHas: []string{"ensurePathExists", "(Patch).add", "findObject"}}, use("R-TOKTAB", "v5"), {Rule: "R-NIL", Bodies: []string{"v5"}, KeyHas: []string{"ensurePathExists"}}, {Rule: "R-TYPESTATE", Bodies: []string{"v5"}, KeyHas: []string{"ensurePathExists"}}, {Rule: "R-RAW", Bodies: []string{"v5"}, KeyHas: []string{"ensurePathExists"}}, {Rule: "R-BOUNDS", Bodies: []string{"v5"}, KeyHas: []string{"ensurePathExists"}}},
+			Explanation: "Decided for the v5 body: R-TOKEN + R-TOKTAB (the names of the members that ensurePathExists looks up and creates are the reference tokens decoded exactly once with the RFC 6901 table; padding uses generated indices), R-NIL + R-TYPESTATE + R-RAW over ensurePathExists (no nil node, nil array container or nil raw message is dereferenced while walking and creating the path). R-BOUNDS over ensurePathExists (the look-ahead parts[pi+1] is in range).",
 			NotDecided:  "that afterwards the value is found at the path, the padding count, and the frame condition (value-level).",
 			Trusted:     commonTrusted, Assumptions: commonAssumptions,
 		},
@@ -195,8 +195,8 @@ func init() {
 		},
 		{
 			ID:          "C18",
-			Rules:       []RuleUse{use("R-DISPATCH", "legacy"), use("R-TOKEN", "legacy"), use("R-TOKTAB", "legacy"), use("R-REPLACE", "legacy"), use("R-MOVE", "legacy"), use("R-COPYISO", "legacy"), {Rule: "R-NIL", Bodies: []string{"legacy"}, KeyHas: []string{"(Patch)", "(*partial", "findObject", "(*lazyNode)", "deepCopy", "newLazyNode", "(Operation)"}}, use("R-RAW", "legacy"), use("R-STALERAW", "legacy"), use("R-RETSHAPE", "legacy"), use("R-ERRCHAIN", "legacy"), {Rule: "R-ABSENT", Bodies: []string{"legacy"}, KeyHas: []string{"(*partialDoc)", ".equal"}}, use("R-ROOTDISPATCH", "legacy"), use("R-WS", "legacy"), use("R-SUCCESS", "legacy")},
-			Explanation: "Decided on the legacy body (which no baseline test compiles): R-DISPATCH (a) (six kinds reach their handlers, unknown kind is an error), R-TOKEN + R-TOKTAB (reference tokens decoded exactly once, RFC 6901 table), R-REPLACE, R-MOVE, R-COPYISO, R-NIL + R-RAW + R-STALERAW (no nil-node or nil-raw dereference), R-RETSHAPE (no document with an error; first failure ends the loop), R-ERRCHAIN (a failed test yields ErrTestFailed and nothing else does; unreachable parents and absent members yield ErrMissing), R-ABSENT (remove and equal distinguish absent from null by comma-ok; get's v4 behaviour is a reviewed exception), R-ROOTDISPATCH + R-WS (the root kind is decided after skipping all JSON whitespace). R-SUCCESS (legacy handlers report success only after performing their operation).",
+			Rules:       []RuleUse{use("R-DISPATCH", "legacy"), use("R-TOKEN", "legacy"), use("R-TOKTAB", "legacy"), use("R-REPLACE", "legacy"), use("R-MOVE", "legacy"), use("R-COPYISO", "legacy"), {Rule: "R-NIL", Bodies: []string{"legacy"}, KeyHas: []string{"(Patch)", "(*partial", "findObject", "(*lazyNode)", "deepCopy", "newLazyNode", "(Operation)"}}, use("R-RAW", "legacy"), use("R-STALERAW", "legacy"), use("R-RETSHAPE", "legacy"), use("R-ERRCHAIN", "legacy"), {Rule: "R-ABSENT", Bodies: []string{"legacy"}, KeyHas: []string{"(*partialDoc)", ".equal"}}, use("R-ROOTDISPATCH", "legacy"), use("R-WS", "legacy"), use("R-SUCCESS", "legacy"), use("R-BOUNDS", "legacy"), use("R-NEGIDX", "legacy")},
+			Explanation: "Decided on the legacy body (which no baseline test compiles): R-DISPATCH (a) (six kinds reach their handlers, unknown kind is an error), R-TOKEN + R-TOKTAB (reference tokens decoded exactly once, RFC 6901 table), R-REPLACE, R-MOVE, R-COPYISO, R-NIL + R-RAW + R-STALERAW (no nil-node or nil-raw dereference), R-RETSHAPE (no document with an error; first failure ends the loop), R-ERRCHAIN (a failed test yields ErrTestFailed and nothing else does; unreachable parents and absent members yield ErrMissing), R-ABSENT (remove and equal distinguish absent from null by comma-ok; get's v4 behaviour is a reviewed exception), R-ROOTDISPATCH + R-WS (the root kind is decided after skipping all JSON whitespace). R-SUCCESS (legacy handlers report success only after performing their operation). R-BOUNDS + R-NEGIDX on the legacy body (an out-of-range index is an error, never a panic; negative indices follow the SupportNegativeIndices package setting).",
 			NotDecided:  "value-level RFC 6902 equivalence.",
 			Trusted:     commonTrusted, Assumptions: commonAssumptions,
 		},
